@@ -33,6 +33,7 @@ type mut struct {
 	prevLoop     bool // incremental file: /Prev of the original points at the update (cycle of 2)
 	crStream     bool // classic file: "stream\r" instead of "stream\n" for object 4
 	stmInStm     bool // xref stream file: compressed object 2 is a stream
+	noSelf       bool // xref stream file: no entry for the xref stream itself, /Size 5
 	encrypt      bool // xref stream file: trailer has /Encrypt and the object stream is not decodable
 }
 
@@ -201,12 +202,16 @@ func xrefStreamPDF(m mut) []byte {
 		i1, i2 = 1, 0
 	}
 	rows := [][3]int{{0, 0, 65535}, {2, 4, i1}, {2, 4, i2}, {1, b.off[3] + m.offDelta[3], 0}, {1, b.off[4], 0}, {1, b.off[5] + m.offDelta[5], 0}}
+	size := 6
+	if m.noSelf {
+		rows, size, enc = rows[:5], 5, enc+" /Index [0 5]"
+	}
 	var raw []byte
 	for _, r := range rows {
 		raw = append(raw, byte(r[0]), byte(r[1]>>8), byte(r[1]), byte(r[2]>>8), byte(r[2]))
 	}
 	z = deflate(pngUp(raw, 5))
-	b.stream(5, fmt.Sprintf("/Type /XRef /Size %d /W [1 2 2] /Root 1 0 R%s /Filter /FlateDecode /DecodeParms <</Predictor 12 /Columns 5>>", 6+m.sizeDelta, enc),
+	b.stream(5, fmt.Sprintf("/Type /XRef /Size %d /W [1 2 2] /Root 1 0 R%s /Filter /FlateDecode /DecodeParms <</Predictor 12 /Columns 5>>", size+m.sizeDelta, enc),
 		fmt.Sprint(len(z)), z, "\n")
 	return b.tail(b.off[5])
 }
@@ -279,6 +284,16 @@ func TestEncryptedObjectStreamsAreSkipped(t *testing.T) {
 	}
 	if f = Parse(xrefStreamPDF(mut{encrypt: true, swapIndex: true, firstDelta: 1})); !f.OK() {
 		t.Errorf("contents of encrypted object streams must not be checked: %q", f.Problems)
+	}
+}
+
+// A cross-reference stream without an entry for itself: /Size may or may not count its object number.
+func TestXRefStreamWithoutOwnEntry(t *testing.T) {
+	for delta, ok := range map[int]bool{-1: false, 0: true, 1: true, 2: false} {
+		f := Parse(xrefStreamPDF(mut{noSelf: true, sizeDelta: delta}))
+		if f.OK() != ok || len(f.Notes) != 2 {
+			t.Errorf("/Size %d: problems %q notes %q", 5+delta, f.Problems, f.Notes)
+		}
 	}
 }
 
